@@ -373,12 +373,15 @@ def elabHdrs (st : St) (cur : String) : List Hdr → Except Err St
       let st ← elabHdr st cur h
       elabHdrs st cur r
 
+/-- `parse_model_header`: the model's definition is created on demand and marked declared, the
+    first model becomes the top, the provisional-name counters restart. -/
+def beginModel (st : St) (n : String) : St :=
+  let st := updDef (ensureDef st n) n (fun d => { d with declared := true })
+  let st := if st.top.isNone then { st with top := some n, nlName := some n } else st
+  { st with counters := [] }
+
 def elabModel (st : St) (m : Model) : Except Err St := do
-  let st := ensureDef st m.name
-  let st := updDef st m.name (fun d => { d with declared := true })
-  let st := if st.top.isNone then { st with top := some m.name, nlName := some m.name } else st
-  let st := { st with counters := [] }
-  let st ← elabHdrs st m.name m.hdr
+  let st ← elabHdrs (beginModel st m.name) m.name m.hdr
   elabStmts st m.name m.body
 
 def elabModels (st : St) : List Model → Except Err St
